@@ -1024,6 +1024,15 @@ pub fn run_trace(trace: &Trace, ctx: &mut Ctx) -> RunOutcome {
                     }
                     Ok(res) => {
                         if untrusted {
+                            // an argument that is too short to hold a proof and its public values carries no share: whatever
+                            // the call answers, it must not hand out a secret
+                            let short = ia.len() < 288 || ib.len() < 288;
+                            if short {
+                                ctx.counters.inc("reach.recover_from_short_input");
+                                if res.is_ok() && !out.is_empty() {
+                                    viol!("C13", si, step, "secret_recovered_from_short_input", format!("argument lengths {} and {}: recover_id_secret returned Ok and wrote {} bytes", ia.len(), ib.len(), out.len()));
+                                }
+                            }
                             continue;
                         }
                         let (pa, pb) = (pa.unwrap(), pb.unwrap());
